@@ -85,3 +85,13 @@ class TaggedEAConfig2(TaggedEAConfig):
 
 class TaggedEADeme2(TaggedEADeme):
     tag = "custom-ea-2"
+
+
+class PureCopyFilter:
+    """A user-written candidates filter in functional style: it does not touch what it is handed and returns a *new* dict
+    with new DemeCandidates objects (legal under the filters' `-> dict` contract).  Drops nothing."""
+
+    def __call__(self, candidates, tree):
+        from pyhms.sprout.sprout_candidates import DemeCandidates
+
+        return {deme: DemeCandidates(individuals=list(c.individuals), features=c.features) for deme, c in candidates.items()}
